@@ -54,7 +54,7 @@ if _ROOT not in sys.path:
     sys.path.insert(0, _ROOT)
 
 from pyfront import SymInt, SymBool, SymBytes, SymStr, ord_shim, encode_str     # noqa: E402
-from symcore import Inconclusive                                                # noqa: E402
+from symcore import Inconclusive, HarnessError                                  # noqa: E402
 from lib.bits import BitBuf                                                     # noqa: E402
 from lib.symvalue import Spec, BUILTIN, Equiv, members_split, enum_items         # noqa: E402
 
@@ -62,10 +62,13 @@ K16 = 16384
 K64 = 65536
 
 # 11.1.4: "any octet-aligned bit-fields shall be concatenated after (zero to seven) zero bits ...".
-# Read literally this pads before an empty octet-aligned bit-field as well; the implementations
-# the model's author knows to be interoperability tested (Objective Systems' runtime as used in
-# ooh323c: "doAlign = (len > 0)"; Wireshark's PER dissector: "there is no string at all, so don't
-# do any byte alignment") and asn1tools' own test vectors for character strings do not.
+# Read literally this pads before an EMPTY octet-aligned bit-field as well.  Widely deployed
+# implementations do not (as far as the author recalls them, none could be consulted while writing:
+# the Objective Systems runtime in ooh323c aligns only "if (len > 0)", Wireshark's PER dissector
+# notes "there is no string at all, so don't do any byte alignment"), and asn1tools' own test
+# vectors expect no padding before an empty character string.  The model follows that practice;
+# set the constant to True for the literal reading.  Only an empty BIT STRING / OCTET STRING /
+# known-multiplier string whose length determinant is a bit-field (constrained, ub < 64K) is affected.
 PAD_EMPTY_ALIGNED_FIELDS = False
 
 
@@ -177,7 +180,10 @@ class _Per:
         """a bound / single value of an INTEGER or SIZE constraint -> int"""
         if isinstance(x, bool) or not isinstance(x, (int, str)):
             raise NotImplementedError('constraint element %r' % (x,))
-        return self.spec.int_value(x, module, btd)
+        try:
+            return self.spec.int_value(x, module, btd)
+        except (KeyError, HarnessError):
+            raise NotImplementedError('constraint bound %r' % (x,))
 
     def _union(self, elements, plo, phi, module, btd, kind):
         """(lo, hi) spanned by the root elements of one constraint (None = unbounded); MIN / MAX
@@ -205,8 +211,8 @@ class _Per:
         """effective (lo, hi, extensible) of the constraints of one kind met along the chain.
 
         10.3.18: constraints are applied serially, innermost first; a later constraint removes the
-        extensibility of the earlier ones [X.680 50.10]; 10.3.19: the parts of one constraint that
-        are visible intersect with the parent."""
+        extensibility (and the extension additions) of the earlier ones, PER-visible or not;
+        10.3.19: the visible parts of one constraint intersect with the parent type."""
         ext = False
         btd = chain[-1][0]
         for td, module in reversed(chain):
@@ -784,9 +790,7 @@ class _Per:
         elif not inside:
             raise EncodeError('%s size %d outside %r..%r' % (t, n, lb, ub))
         b = self.char_bits(_runs_len(runs))                  # 30.5.2
-        # 30.5.4: the character value itself if the largest one fits in b bits, else its index
-        # in the canonical order of the effective permitted alphabet
-        reindex = runs[-1][1] > (1 << b) - 1
+        reindex = self.reindexed(runs, b, t)                 # 30.5.4
         chars = list(value)
 
         def emit(out, a, e):
@@ -812,6 +816,12 @@ class _Per:
                 b2 *= 2
             b = b2
         return b
+
+    def reindexed(self, runs, b, t):
+        """30.5.4: a character is encoded as its value if the largest value of the effective
+        permitted alphabet fits in b bits (ub <= 2^b - 1); otherwise as its index (from 0) in the
+        canonical order of that alphabet"""
+        return runs[-1][1] > (1 << b) - 1
 
     def kmstring_aligned(self, fixed, ub, b):
         """is the bit-field of the characters octet-aligned (ALIGNED variant)?
@@ -874,7 +884,7 @@ class _Per:
             raise _Unknown()
         try:
             return Equiv.default_value(self._dv, m, btd, bmod)
-        except (Inconclusive, KeyError, ValueError):
+        except (Inconclusive, HarnessError, KeyError, ValueError, TypeError):
             raise _Unknown()
 
     def is_default(self, v, m, module):
